@@ -37,3 +37,6 @@ package crypto
 //@   ensures [lowS] ok && homestead ==> s.v <= secp256k1halfN.v
 //@   ensures [recoveryId] ok ==> v == 0 || v == 1
 //@   ensures [complete] 1 <= r.v && r.v < secp256k1N.v && 1 <= s.v && s.v < secp256k1N.v && (v == 0 || v == 1) && (homestead ==> s.v <= secp256k1halfN.v) ==> ok
+
+// Signing reads the hash and the key; it modifies nothing that is modelled.
+//@ trusted func Sign(hash []byte, prv *ecdsa.PrivateKey) (sig []byte, err error)
